@@ -2,11 +2,12 @@
    Property theorems only. Model: Opt/ClassicOpt.v (stage_2/optimize.rs as written, driver order and
    signedness of path reads regenerated from the source). Semantics: Clvm/Eval.v.
    Status: the full statement is C04_sound_full below (visible, NOT proved in this round). Proved: the
-   soundness of four of the eight rewrite rules for every CLVM tree, environment and operator oracle
+   soundness of five of the eight rewrite rules (incl. the path rule, with the path read as the generated
+   switch OPT_PATH_OPT_SIGNED says - the rule in which D3 lived) for every CLVM tree, environment and operator oracle
    in which c/f/r are cons/first/rest, plus fuel monotonicity of evaluation and path composition. The
-   remaining rules (constant folding, variable change through sub_args, children, path_optimizer)
+   remaining rules (constant folding, variable change through sub_args, children)
    and the driver loop are tied to the code by the correspondence check and decided by execution. *)
-From CV Require Import Base.Prelude Base.Val Base.Bytes Clvm.Path Clvm.Eval Clvm.Ops Opt.ClassicOpt Opt.ClassicOptProofs.
+From CV Require Import Base.Prelude Base.Val Base.Bytes Clvm.Path Clvm.Eval Clvm.Ops Opt.ClassicOpt Opt.ClassicOptProofs Opt.PathOptProofs.
 
 Definition cfr_oracle (opf : bytes -> val -> option val) : Prop :=
   (forall a b, opf [4] (Cons a (Cons b nilv)) = Some (Cons a b)) /\
@@ -37,6 +38,10 @@ Proof. intros opf. apply quote_null_optimizer_sound. Qed.
 Theorem C04_apply_null_rule_sound_partial : forall opf r e n v,
   eval opf n r e = Ok v -> exists m, eval opf m (apply_null_optimizer r) e = Ok v.
 Proof. intros opf. apply apply_null_optimizer_sound. Qed.
+
+Theorem C04_path_rule_sound_partial : forall opf, cfr_oracle opf ->
+  forall r e n v, eval opf n r e = Ok v -> exists m, eval opf m (path_optimizer r) e = Ok v.
+Proof. intros opf (H1 & H2 & H3). apply path_optimizer_sound; assumption. Qed.
 
 Theorem C04_eval_fuel_monotone : forall opf n p e v,
   eval opf n p e = Ok v -> forall m, (n <= m)%nat -> eval opf m p e = Ok v.
